@@ -183,6 +183,7 @@ impl Engine for GcEngine {
                 ("groups_died", out.groups_died),
             ],
             evaluations: 1,
+            ..Default::default()
         }
     }
 
